@@ -531,6 +531,84 @@ def c18(ctx):
                            "structural check of the returned object + bivariate functions on every ordered pair of the list")
 
 
+def c19(ctx):
+    """text round trips and imports"""
+    import json as _json
+    import pool as _pool
+    from common import scratch, rmtree
+    q = ctx.tier == QUICK
+    d = scratch("pyspike_pool_")
+    try:
+        for seed, nb in ([(0, 6)] if q else [(0, 6), (ctx.seed + 1, 7)]):
+            vals, table = _pool.build(seed, nb)
+            pf = os.path.join(d, "pool_%d.json" % seed)
+            _pool.write(pf, table)
+            c = dict(Mode='"roundtrip"', NTrains=2 if q else 3, MaxLen=2, MaxEdits=1 if q else 2, Rows=1, Cols=1, Sample=5 if q else 6)
+            res = run_tlc("TextIO", c, ["RoundTrip", "Identity17", "RndMonotone", "CountAndOrder", "Export"], workers=16,
+                          timeout=3000, env={"POOL_FILE": pf}, seed=ctx.seed or 1)
+            ctx.add_tlc(res, "save / edit / load: file structure and rounding tables (pool of %d doubles)" % len(vals), exhaustive=False)
+            if res.violated:
+                continue
+            ex = res.exports
+            for k, r in enumerate(ex):
+                r["_vals"] = vals
+                r["_precs"] = table["precs"]
+                r["_k"] = k
+                ctx.count_path("%s/%s/%s" % ([len(t) for t in r["trains"]], [e["e"] for e in r["edits"]], sorted(r["par"].items())))
+            ctx.sample(ex[len(ex) // 2])
+            replay.run(ctx, "textio", ex, backends=("py",), chunk=300)
+        for rows, cols in ([(1, 3), (3, 1), (2, 3)] if q else [(1, 4), (4, 1), (2, 4), (3, 3), (1, 1)]):
+            c = dict(Mode='"series"', NTrains=1, MaxLen=1, MaxEdits=0, Rows=rows, Cols=cols, Sample=0)
+            vals, table = _pool.build(0, 4)
+            pf = os.path.join(d, "pool_s.json")
+            _pool.write(pf, table)
+            res = run_tlc("TextIO", c, ["Export"], workers=4, timeout=600, env={"POOL_FILE": pf})
+            ctx.add_tlc(res, "all %dx%d 0/1 matrices" % (rows, cols))
+            for r in res.exports:
+                ctx.count_path("series %dx%d %s" % (rows, cols, [len(t) for t in r["trains"]]))
+            ctx.sample(res.exports[-1])
+            replay.run(ctx, "series", res.exports, backends=("py",), chunk=100)
+    finally:
+        rmtree(d)
+    ctx.assumptions += ["the decimal fidelity of arbitrary doubles is sampled through a finite value pool (awkward doubles closed under "
+                        "the rounding maps, computed with exact decimal arithmetic), not decided",
+                        "separators ' ', ',', ';', tab, ', ' and comment prefixes '#', '%', '//' rotate over the cases"]
+    return ctx.finish(rule="file structures (which trains are empty, comment / blank / reversed lines, flags, precision) x value pool; "
+                           "all 0/1 matrices of the listed shapes x 4 (start, bin) pairs x 2 separators")
+
+
+def c20(ctx):
+    """merging and histogramming conserve every spike; Poisson trains are well formed"""
+    import traces as _traces
+    q = ctx.tier == QUICK
+    runs = [dict(TS=0, TE=5, MaxSp=2, N=3, BinQ=tla_set([4, 8, 10, 6, 20]), Sample=5 if q else 12),
+            dict(TS=-2, TE=4, MaxSp=3, N=2, BinQ=tla_set([2, 4, 24, 7]), Sample=8 if q else 30)]
+    if not q:
+        runs.append(dict(TS=0, TE=7, MaxSp=3, N=4, BinQ=tla_set([4, 12, 28]), Sample=5))
+    for c in runs:
+        c = _neg(c)
+        res = run_tlc("Collections", c, ["MergeIsMultisetUnion", "PsthCounts", "Export"], workers=16, timeout=3000, seed=ctx.seed or 1)
+        ctx.add_tlc(res, "merge = sorted multiset union; PSTH bins count every spike", exhaustive=False)
+        if res.violated:
+            continue
+        ctx.sample(res.exports[len(res.exports) // 2])
+        for r in res.exports:
+            ctx.count_path("%s/%s" % ([len(t) for t in r["tr"]], r["bin"]))
+        replay.run(ctx, "coll", res.exports, backends=("py",), chunk=300)
+    # code -> spec: recorded executions on float data, rank-abstracted, validated by TLC
+    n = 300 if q else 3000
+    tr, raw = _traces.poisson_traces(ctx.seed + 7, n)
+    _traces.validate(ctx, tr, raw, "generate_poisson_spikes: %d recorded executions validated against PoissonPost" % n, "trace_poisson")
+    ctx.sample(tr[1])
+    tr2, raw2 = _traces.merge_traces(ctx.seed + 11, n // 3)
+    _traces.validate(ctx, tr2, raw2, "merge_spike_trains on float data (test data file, random trains): validated against MergePost", "trace_merge")
+    ctx.sample(tr2[0])
+    ctx.assumptions += ["nothing is said about the distribution of generate_poisson_spikes; only sortedness, containment in [T0,T1) and the edges",
+                        "rank abstraction: every time of a recorded call is replaced by its rank among the distinct values (exact for < and =)"]
+    return ctx.finish(rule="grid lists x bin sizes (dividing and not dividing the recording) replayed; seeded recorded executions of "
+                           "generate_poisson_spikes (3 interval forms x 5 rates) and merge_spike_trains validated as traces")
+
+
 import re as _re
 
 
